@@ -106,7 +106,8 @@ func (k *KVStore) Compaction() (bool, error) {
 				if len(k.tables) == 1 {
 					break
 				}
-				delete(k.tablesByCoefficient, t.Coefficient())
+				// A recycled table has already been removed from tablesByCoefficient and
+				// its coefficient has been reset to zero, which may belong to a live table now.
 				k.tables = append(k.tables[:i], k.tables[i+1:]...)
 				i--
 			}
